@@ -398,6 +398,9 @@ def c18(ctx):
         traces.append(r[0])
         metas.append(dict(r[1], plan_index=i))
     ctx.coverage["real_process_runs"] = len(plan)
+    # the sync worker's loop against specs/SyncLoop.tla, with max_requests: the limit counts for every listener
+    from props import syncloop
+    syncloop.model_traces(ctx, {"StopsAtLimit"}, "C18")
     verdicts, stats = tlc.validate_batch("RecycleTrace", "RecycleTrace.cfg", traces, name="RecycleTrace_C18")
     ctx.add_traces(len(traces), stats)
     # a real-process run that fails is repeated once (same arguments): what is reported is what fails both times -- the
